@@ -9,7 +9,7 @@ LEVEL = "proof"
 NEED_RELEASE = True
 COQ_TARGETS = ["Props/C11.vo", "Props/C11_fp.vo", "Props/C11_fl.vo"]
 PROPS_FILES = ["C11", "C11_fp", "C11_fl"]
-THEOREMS = ["C11_dirichlet_sticks_fl", "C11_dirichlet_sum_fl", "C11_stick_step", "C11_sumR_def", "C11_fingerprints", "C11_rev_csum_spec", "C11_rev_csum_length", "C11_beta_chain_params", "C11_stick_simplex", "C11_gamma_simplex",
+THEOREMS = ["C11_dirichlet_sticks_fl", "C11_dirichlet_sum_fl", "C11_stick_step", "C11_sumR_def", "C11_fl_source", "C11_fingerprints", "C11_rev_csum_spec", "C11_rev_csum_length", "C11_beta_chain_params", "C11_stick_simplex", "C11_gamma_simplex",
             "C11_dirichlet_simplex", "C11_method_switch"]
 TRUSTED_BASE = [
     "Coq 8.16.1 kernel; stdlib real axioms; Proofs/MultiDirichlet.v: the reverse cumulative sum has entry i = sum_{j>i} alpha_j (so component i "
